@@ -65,6 +65,8 @@ func c01Labels(c *vlib.Case, st vidx.FileStats, sparse bool, groups int) (nontri
 	c.LabelIf(st.EarlierThan1, "later-stream-before-reference-second")
 	c.LabelIf(st.BothFamilies, "v4+v6")
 	c.LabelIf(st.ServerFirst, "server-speaks-first")
+	c.LabelIf(st.MaxDirChanges > 1000, "direction-changes>1000")
+	c.LabelIf(st.ChattyNotLast, "direction-changes>1000-then-more-streams")
 	c.LabelIf(groups >= 2, "hostgroups>=2")
 	return st.Streams >= 2 && (st.MaxPayload > 65535 || groups >= 2 || st.Captures >= 2 || st.OffsetOver32 || sparse || st.Payloadless > 0 || st.MaxIdleRun > 255)
 }
